@@ -368,6 +368,11 @@ impl PeerHandler {
     }
 
     async fn handle_unchoke(&mut self) -> Result<bool, Box<dyn std::error::Error>> {
+        // Repeated Unchoke changes nothing, manager already assigned a piece for this peer
+        if !self.peer_state.choked {
+            return Ok(true);
+        }
+
         self.peer_state.choked = false;
 
         if !self.msg_buff.is_empty() {
